@@ -53,6 +53,7 @@ pub struct Run {
     pub seed: u64,
     out: Option<PathBuf>,
     journal: Option<File>,
+    cur_unit: Option<u64>,
     start: Instant,
     budget: Option<Duration>,
     // counters
@@ -168,6 +169,7 @@ impl Run {
             seed,
             out,
             journal,
+            cur_unit: None,
             start: Instant::now(),
             budget,
             evaluations: 0,
@@ -239,6 +241,7 @@ impl Run {
         if let Some(j) = &self.journal {
             let _ = j.write_all_at(&idx.to_le_bytes(), 0);
         }
+        self.cur_unit = Some(idx);
         progress();
         true
     }
@@ -307,7 +310,10 @@ impl Run {
         let n = self.violation_counts.entry(key).or_insert(0);
         *n += 1;
         if (*n as usize) <= MAX_VIOLATIONS_PER_CLAUSE {
-            self.violations.push(json!({"clause": clause, "class": class, "case": case, "detail": detail}));
+            // the enumeration unit is recorded so that a violation that depends on the calls made
+            // before it in the unit (state carried by a long-lived object of the subject) can be
+            // confirmed by re-running the unit when the single case does not reproduce alone
+            self.violations.push(json!({"clause": clause, "class": class, "case": case, "detail": detail, "unit": self.cur_unit}));
         }
     }
 
